@@ -32,7 +32,7 @@ def budget(tier):
 
 
 def _spec():
-    data = st.one_of(st.sampled_from([{"k": "A"}, {"k": "B"}, {"k": "C"}, {"k": "A"}, {}]), gen.json_data(4))
+    data = st.one_of(st.sampled_from([{"k": "A"}, {"k": "B"}, {"k": "C"}, {"k": "A"}, {}]), gen.json_data(4, surrogates=True))
     return st.fixed_dictionaries(
         {
             "slot": st.integers(0, 11),
